@@ -137,14 +137,15 @@ int main(void)
             free(src);
         } else if (n >= 4 && (!strcmp(tok[0], "lit") || !strcmp(tok[0], "enum"))) {
             /* lit <optbits> <type> <hex token>   : table T { x:<type> = <token>; }  -> ok <default as uint64> | reject
-               enum <optbits> <type> <v,v,_,...>  : enum E:<type> { M0 = v, M1, ... }  -> ok v0,v1,... (as uint64) | reject */
+               enum <optbits> <type> <v,v,_,...>  : enum E:<type> { M0 = v, M1, ... }  -> ok v0,v1,... (as uint64) | reject
+                                                    optbits & 2: (bit_flags), the v are bit positions */
             unsigned ob = (unsigned)strtoul(tok[1], 0, 10); char src[4096]; size_t bsize = 0; void *bfbs; int ret;
             flatcc_options_t opts; flatcc_context_t ctx;
             if (!strcmp(tok[0], "lit")) {
                 char t[256]; size_t tl = h_hexlen(tok[3]); if (tl > 200) tl = 200; h_unhex(tok[3], (uint8_t *)t); t[tl] = 0;
                 snprintf(src, sizeof src, "table T { x:%s = %s; }", tok[2], t);
             } else {
-                char *p = tok[3], *q; int k = 0; size_t o = (size_t)snprintf(src, sizeof src, "enum E:%s {", tok[2]);
+                char *p = tok[3], *q; int k = 0; size_t o = (size_t)snprintf(src, sizeof src, "enum E:%s %s{", tok[2], (ob & 2) ? "(bit_flags) " : "");
                 while (*p && o < sizeof src - 64) { q = strchr(p, ','); if (q) *q = 0;
                     if (!strcmp(p, "_")) o += (size_t)snprintf(src + o, sizeof src - o, "%s M%d", k ? "," : "", k);
                     else o += (size_t)snprintf(src + o, sizeof src - o, "%s M%d = %s", k ? "," : "", k, p);
